@@ -126,6 +126,18 @@ func (in *Interp) registerIntrinsics(reg func(string, extFn)) {
 		return nil
 	})
 	r("vfNativeNote", func(in *Interp, fr *frame, fn *ssa.Function, args []Value) Value { return nil })
+	r("vfConcretize", func(in *Interp, fr *frame, fn *ssa.Function, args []Value) Value {
+		s := args[0].(Str)
+		if s.B == nil {
+			return s
+		}
+		out := make([]byte, len(s.B))
+		for i, b := range s.B {
+			c := in.concretize(in.ts.ZExt(b, 64), "vfConcretize")
+			out[i] = byte(c.C)
+		}
+		return Str{S: string(out)}
+	})
 	r("vfSteps", func(in *Interp, fr *frame, fn *ssa.Function, args []Value) Value {
 		return in.mkInt(in.path.Steps)
 	})
